@@ -1,4 +1,735 @@
-//! C17 monitor (not written yet).
-pub fn run(_ctx: &crate::ctx::Ctx, report: &mut vcore::Report) {
-    report.notes.push("stub".into());
+//! C17 (bed A) – errors encode faithfully; their parameters are partitioned by declared safety.
+//!
+//! Sub-monitors
+//! * `status`  – the `ErrorCode::status_code` table, exhaustively, against the Conjure spec.
+//! * `builtin` – the eight parameterless error types shipped by conjure-error.
+//! * `errors`  – a `DynError` (arbitrary code, name, *sorted* safe-arg list, fields of every
+//!   parameter class, instance id supplied in every possible way or not at all) through
+//!   `encode`, the JSON round trip of the result, `Error::service`, `service_safe`,
+//!   `propagated_service`, `propagated_service_safe`.
+//!
+//! The expectation of the parameter map is the model `stringify` below, written from the
+//! property text only. Parameters whose encoding the property leaves open (non-finite doubles,
+//! datetime / bearer token / safelong / any) are observed, not judged, beyond "if present it is
+//! the JSON string form".
+use crate::ctx::{guarded, Ctx};
+use crate::node::*;
+use conjure_error::{encode, Error, ErrorCode, ErrorKind, ErrorType, SerializableError};
+use conjure_object::{Any, BearerToken, DateTime, ResourceIdentifier, SafeLong, Utc, Uuid};
+use conjure_serde::json;
+use serde::ser::SerializeStruct;
+use serde::{Serialize, Serializer};
+use serde_bytes::ByteBuf;
+use serde_json::json;
+use std::collections::{BTreeMap, BTreeSet};
+use std::sync::OnceLock;
+use vcore::json::J;
+use vcore::rng::fnv;
+use vcore::text::*;
+use vcore::{Report, Rng};
+
+// ---------------------------------------------------------------------------------------------
+// Static pools (`ErrorType::safe_args` and serde's struct field names must be 'static)
+
+/// Sorted (byte order) pool of parameter names.
+const FIELDS: &[&str] = &[
+    "", "0", "UPPER", "a", "b-dash", "errorCode", "fooBar", "foo_bar", "parameters", "safeArg", "type", "unsafeArg",
+    "with space", "with.dot", "z", "ünï",
+];
+
+const STRUCT_NAMES: &[&str] = &["DynError", "", "Default:Internal", "x"];
+
+const NAMESPACES: &[&str] = &["Default", "Conjure", "MyService", "a", "Ünï", ""];
+const NAMES: &[&str] = &["NotFound", "InvalidArgument", "DatasetNotFound", "x", "With Space", "A:B", ""];
+
+/// 64 sorted sub-lists of `FIELDS`, the first two being the empty and the full list.
+fn safe_lists() -> &'static Vec<&'static [&'static str]> {
+    static LISTS: OnceLock<Vec<&'static [&'static str]>> = OnceLock::new();
+    LISTS.get_or_init(|| {
+        let mut r = Rng::new(0x5afe_a495);
+        let mut out: Vec<&'static [&'static str]> = vec![&[], FIELDS];
+        while out.len() < 64 {
+            let density = 1 + r.below(7) as u32;
+            let list: Vec<&'static str> = FIELDS.iter().copied().filter(|_| r.chance(density, 8)).collect();
+            debug_assert!(list.windows(2).all(|w| w[0] < w[1]));
+            out.push(Box::leak(list.into_boxed_slice()));
+        }
+        out
+    })
+}
+
+const CODES: &[(&str, u16)] = &[
+    ("PERMISSION_DENIED", 403),
+    ("INVALID_ARGUMENT", 400),
+    ("NOT_FOUND", 405),
+    ("CONFLICT", 409),
+    ("REQUEST_ENTITY_TOO_LARGE", 413),
+    ("FAILED_PRECONDITION", 500),
+    ("INTERNAL", 500),
+    ("TIMEOUT", 500),
+    ("CUSTOM_CLIENT", 400),
+    ("CUSTOM_SERVER", 500),
+];
+
+/// Exhaustive (no wildcard: a new variant breaks the build) mapping variant -> spec name.
+fn spec_name(c: &ErrorCode) -> &'static str {
+    match c {
+        ErrorCode::PermissionDenied => "PERMISSION_DENIED",
+        ErrorCode::InvalidArgument => "INVALID_ARGUMENT",
+        ErrorCode::NotFound => "NOT_FOUND",
+        ErrorCode::Conflict => "CONFLICT",
+        ErrorCode::RequestEntityTooLarge => "REQUEST_ENTITY_TOO_LARGE",
+        ErrorCode::FailedPrecondition => "FAILED_PRECONDITION",
+        ErrorCode::Internal => "INTERNAL",
+        ErrorCode::Timeout => "TIMEOUT",
+        ErrorCode::CustomClient => "CUSTOM_CLIENT",
+        ErrorCode::CustomServer => "CUSTOM_SERVER",
+    }
+}
+
+const ALL_CODES: [ErrorCode; 10] = [
+    ErrorCode::PermissionDenied,
+    ErrorCode::InvalidArgument,
+    ErrorCode::NotFound,
+    ErrorCode::Conflict,
+    ErrorCode::RequestEntityTooLarge,
+    ErrorCode::FailedPrecondition,
+    ErrorCode::Internal,
+    ErrorCode::Timeout,
+    ErrorCode::CustomClient,
+    ErrorCode::CustomServer,
+];
+
+// ---------------------------------------------------------------------------------------------
+// Parameters
+
+#[derive(Clone, Debug)]
+enum P {
+    Str(String),
+    Uuid(Uuid),
+    Rid(ResourceIdentifier),
+    Enum(Color),
+    Bool(bool),
+    I32(i32),
+    /// a 64-bit integer outside the safelong range is still an integer
+    I64(i64),
+    Safe(SafeLong),
+    F64(f64),
+    List(Vec<Node>),
+    StrList(Vec<String>),
+    Set(BTreeSet<Node>),
+    Map(BTreeMap<String, Node>),
+    IntMap(BTreeMap<i32, String>),
+    Obj(Box<Rec>),
+    EmptyObj,
+    Bin(ByteBuf),
+    Opt(Option<Box<P>>),
+    Time(DateTime<Utc>),
+    Token(BearerToken),
+    /// the dynamic value and, where the property's reading is clear (string / boolean / integer
+    /// content), its JSON string form
+    Any(Any, Option<String>),
+    /// alias of another type (a newtype struct on the serde level)
+    Alias(Box<P>),
+}
+
+impl Serialize for P {
+    fn serialize<S: Serializer>(&self, s: S) -> Result<S::Ok, S::Error> {
+        match self {
+            P::Str(v) => v.serialize(s),
+            P::Uuid(v) => v.serialize(s),
+            P::Rid(v) => v.serialize(s),
+            P::Enum(v) => v.serialize(s),
+            P::Bool(v) => v.serialize(s),
+            P::I32(v) => v.serialize(s),
+            P::I64(v) => v.serialize(s),
+            P::Safe(v) => v.serialize(s),
+            P::F64(v) => v.serialize(s),
+            P::List(v) => v.serialize(s),
+            P::StrList(v) => v.serialize(s),
+            P::Set(v) => v.serialize(s),
+            P::Map(v) => v.serialize(s),
+            P::IntMap(v) => v.serialize(s),
+            P::Obj(v) => v.serialize(s),
+            P::EmptyObj => s.serialize_struct("Empty", 0)?.end(),
+            P::Bin(v) => v.serialize(s),
+            P::Opt(None) => s.serialize_none(),
+            P::Opt(Some(v)) => s.serialize_some(&**v),
+            P::Time(v) => v.serialize(s),
+            P::Token(v) => v.serialize(s),
+            P::Any(v, _) => v.serialize(s),
+            P::Alias(v) => s.serialize_newtype_struct("Alias", &**v),
+        }
+    }
+}
+
+fn gen_scalar(r: &mut Rng) -> P {
+    match r.below(13) {
+        0 | 1 => P::Str(hostile_string(r, 12)),
+        2 => P::Uuid(gen_uuid(r)),
+        3 => P::Rid(gen_rid(r)),
+        4 => P::Enum(gen_color(r)),
+        5 => P::Bool(r.bool()),
+        6 => P::I32(hostile_i32(r)),
+        7 => P::I64(hostile_i64(r)),
+        8 => P::Safe(gen_safelong(r)),
+        9 | 10 => P::F64(hostile_f64(r)),
+        11 => P::Time(gen_time(r)),
+        _ => P::Token(gen_token(r)),
+    }
+}
+
+fn gen_any(r: &mut Rng) -> P {
+    fn any<T: Serialize>(v: T) -> Any {
+        Any::new(v).expect("harness value converts to Any")
+    }
+    match r.below(8) {
+        0 => {
+            let s = hostile_string(r, 8);
+            P::Any(any(&s), Some(s))
+        }
+        1 => {
+            let b = r.bool();
+            P::Any(any(b), Some(b.to_string()))
+        }
+        2 => {
+            let v = hostile_i64(r);
+            P::Any(any(v), Some(v.to_string()))
+        }
+        3 => {
+            let v = r.u64();
+            P::Any(any(v), Some(v.to_string()))
+        }
+        // doubles (finite or not), null and containers inside an `any`: left open
+        4 => P::Any(any(hostile_f64(r)), None),
+        5 => P::Any(any(()), None),
+        6 => P::Any(any(vec![1, 2, 3]), None),
+        _ => P::Any(any(gen_node(r, 1)), None),
+    }
+}
+
+fn gen_param(r: &mut Rng, depth: usize) -> P {
+    match r.below(20) {
+        0..=8 => gen_scalar(r),
+        9 => P::List((0..r.below(3)).map(|_| gen_node(r, 1)).collect()),
+        10 => P::StrList((0..r.below(3)).map(|_| hostile_string(r, 5)).collect()),
+        11 => P::Set((0..r.below(3)).map(|_| gen_node(r, 1)).collect()),
+        12 => match r.below(2) {
+            0 => P::Map((0..r.below(3)).map(|_| (hostile_string(r, 5), gen_node(r, 1))).collect()),
+            _ => P::IntMap((0..r.below(3)).map(|_| (hostile_i32(r), hostile_string(r, 5))).collect()),
+        },
+        13 => match r.below(2) {
+            0 => P::EmptyObj,
+            _ => P::Obj(Box::new(Rec {
+                first: gen_node(r, 1),
+                opt: None,
+                list: vec![],
+                num: hostile_f64(r),
+                id: gen_uuid(r),
+            })),
+        },
+        14 => P::Bin(ByteBuf::from(hostile_bytes(r, 12))),
+        15 => P::Opt(None),
+        16 | 17 if depth > 0 => P::Opt(Some(Box::new(gen_param(r, depth - 1)))),
+        18 if depth > 0 => P::Alias(Box::new(gen_param(r, depth - 1))),
+        19 => gen_any(r),
+        _ => gen_scalar(r),
+    }
+}
+
+/// What the property says about the string entry of one parameter.
+#[derive(Debug)]
+enum Want {
+    /// present with exactly this text
+    Exact(String),
+    /// present with any text that parses back to this (finite) number
+    Number(f64),
+    /// no entry
+    Omitted,
+    /// left open: if an entry is present and a JSON string form is known it must equal it
+    Open(Option<String>),
+}
+
+/// The JSON string form of a value: the content of the JSON string, or the token of a
+/// number / boolean.
+fn json_form<T: Serialize>(v: &T) -> Option<String> {
+    let text = json::to_string(v).ok()?;
+    match vcore::json::parse(text.as_bytes()).ok()? {
+        J::Str(s) => Some(s),
+        J::Bool(b) => Some(b.to_string()),
+        J::Num(n) if n.bytes().all(|c| c == b'-' || c.is_ascii_digit()) => Some(n),
+        _ => None,
+    }
+}
+
+/// Model of the parameter stringification, and the parameter's class.
+fn stringify(p: &P) -> (Want, String) {
+    match p {
+        P::Str(s) => (Want::Exact(s.clone()), "string".into()),
+        P::Uuid(u) => (Want::Exact(u.hyphenated().to_string()), "uuid".into()),
+        P::Rid(r) => (Want::Exact(r.as_str().to_string()), "rid".into()),
+        P::Enum(c) => (Want::Exact(c.as_str().to_string()), "enum".into()),
+        P::Bool(b) => (Want::Exact(if *b { "TRUE" } else { "false" }.to_string()), "boolean".into()),
+        P::I32(v) => (Want::Exact(v.to_string()), "integer".into()),
+        P::I64(v) => (Want::Exact(v.to_string()), "integer64".into()),
+        P::F64(v) if v.is_finite() => (Want::Number(*v + 1.0), "double".into()),
+        P::F64(_) => (Want::Open(None), "double-nonfinite".into()),
+        P::Safe(v) => (Want::Open(Some((**v).to_string())), "safelong".into()),
+        P::Time(t) => (Want::Open(json_form(t)), "datetime".into()),
+        P::Token(t) => (Want::Open(Some(t.as_str().to_string())), "bearertoken".into()),
+        P::Any(_, form) => (Want::Open(form.clone()), "any".into()),
+        P::List(_) | P::StrList(_) => (Want::Omitted, "list".into()),
+        P::Set(_) => (Want::Omitted, "set".into()),
+        P::Map(_) | P::IntMap(_) => (Want::Omitted, "map".into()),
+        P::Obj(_) => (Want::Omitted, "object".into()),
+        P::EmptyObj => (Want::Omitted, "object-empty".into()),
+        P::Bin(b) => (Want::Exact(vcore::models::b64_encode(b)), "binary".into()),
+        P::Opt(None) => (Want::Omitted, "optional-absent".into()),
+        P::Opt(Some(inner)) => {
+            let (w, c) = stringify(inner);
+            (w, format!("optional<{}>", c))
+        }
+        P::Alias(inner) => {
+            let (w, c) = stringify(inner);
+            (w, format!("alias<{}>", c))
+        }
+    }
+}
+
+// ---------------------------------------------------------------------------------------------
+
+#[derive(Clone, Debug)]
+struct DynError {
+    code: ErrorCode,
+    name: String,
+    instance: Option<Uuid>,
+    safe: &'static [&'static str],
+    struct_name: &'static str,
+    fields: Vec<(&'static str, P)>,
+}
+
+impl ErrorType for DynError {
+    fn code(&self) -> ErrorCode {
+        self.code.clone()
+    }
+    fn name(&self) -> &str {
+        &self.name
+    }
+    fn instance_id(&self) -> Option<Uuid> {
+        self.instance
+    }
+    fn safe_args(&self) -> &'static [&'static str] {
+        self.safe
+    }
+}
+
+impl Serialize for DynError {
+    fn serialize<S: Serializer>(&self, s: S) -> Result<S::Ok, S::Error> {
+        let mut st = s.serialize_struct(self.struct_name, self.fields.len())?;
+        for (k, v) in &self.fields {
+            st.serialize_field(k, v)?;
+        }
+        st.end()
+    }
+}
+
+fn gen_error(r: &mut Rng) -> DynError {
+    let mut names: Vec<&'static str> = FIELDS.to_vec();
+    r.shuffle(&mut names);
+    let n = match r.below(6) {
+        0 => 0,
+        1 => 1,
+        _ => 1 + r.below(8),
+    };
+    names.truncate(n);
+    let lists = safe_lists();
+    DynError {
+        code: ALL_CODES[r.below(10)].clone(),
+        name: format!("{}:{}", r.pick(NAMESPACES), r.pick(NAMES)),
+        instance: if r.chance(1, 3) { Some(gen_uuid(r)) } else { None },
+        safe: lists[r.below(lists.len())],
+        struct_name: *r.pick(STRUCT_NAMES),
+        fields: names.into_iter().map(|k| (k, gen_param(r, 2))).collect(),
+    }
+}
+
+struct Probe<'a> {
+    rep: &'a mut Report,
+    sub: &'a str,
+    seed: u64,
+    shown: String,
+}
+
+impl Probe<'_> {
+    fn fail(&mut self, sig: String, info: serde_json::Value) {
+        self.rep.violation(self.sub, self.seed, sig, json!({"error": self.shown, "info": info}));
+    }
+}
+
+fn v4_well_formed(u: &Uuid) -> bool {
+    let b = u.as_bytes();
+    b[6] >> 4 == 4 && b[8] >> 6 == 0b10
+}
+
+/// `route`: who produced `se` ("encode", "service", ...); `id`: the instance id that was supplied.
+fn check_encoded(p: &mut Probe, route: &str, e: &DynError, id: Option<Uuid>, se: &SerializableError) {
+    p.rep.evaluations += 3;
+    if se.error_code() != &e.code {
+        p.fail(format!("{}:code", route), json!({"got": se.error_code().as_str(), "want": spec_name(&e.code)}));
+    }
+    if se.error_name() != e.name {
+        p.fail(format!("{}:name", route), json!({"got": se.error_name(), "want": e.name}));
+    }
+    match id {
+        Some(id) => {
+            if se.error_instance_id() != id {
+                p.fail(
+                    format!("{}:instance-id-not-the-supplied-one", route),
+                    json!({"got": se.error_instance_id().to_string(), "want": id.to_string()}),
+                );
+            }
+        }
+        None => {
+            if !v4_well_formed(&se.error_instance_id()) {
+                p.fail(format!("{}:instance-id-not-v4", route), json!({"got": se.error_instance_id().to_string()}));
+            }
+        }
+    }
+    let params = se.parameters();
+    for (name, value) in &e.fields {
+        let (want, class) = stringify(value);
+        let got = params.get(*name);
+        p.rep.evaluations += 1;
+        p.rep.cell(&format!("param/{}", class.split('<').next().unwrap_or("")));
+        let bad = |what: &str, p: &mut Probe| {
+            p.fail(
+                format!("{}:param-{}:{}", route, class, what),
+                json!({"parameter": name, "value": trunc(&format!("{:?}", value)), "entry": got, "expected": format!("{:?}", want)}),
+            );
+        };
+        match (&want, got) {
+            (Want::Exact(s), Some(g)) if g == s => {}
+            (Want::Exact(_), Some(_)) => bad("wrong-text", p),
+            (Want::Exact(_), None) => bad("missing", p),
+            (Want::Number(d), Some(g)) => {
+                // independent parsers: Rust's, plus the Conjure spellings of the special values
+                let back = match g.as_str() {
+                    "Infinity" => Some(f64::INFINITY),
+                    "-Infinity" => Some(f64::NEG_INFINITY),
+                    t => t.parse::<f64>().ok(),
+                };
+                if back != Some(*d) {
+                    bad("does-not-parse-back", p);
+                }
+            }
+            (Want::Number(_), None) => bad("missing", p),
+            (Want::Omitted, None) => {}
+            (Want::Omitted, Some(_)) => bad("not-omitted", p),
+            (Want::Open(form), got) => {
+                let state = match (form, got) {
+                    (_, None) => "absent".to_string(),
+                    (Some(f), Some(g)) if f == g => "json-form".to_string(),
+                    (Some(_), Some(_)) => {
+                        bad("differs-from-json-form", p);
+                        "other".to_string()
+                    }
+                    (None, Some(g)) if class.contains("double-nonfinite") => format!("text={}", g),
+                    (None, Some(_)) => "present".to_string(),
+                };
+                p.rep.observed_only(&format!("param-{}:{}", class.rsplit('<').next().unwrap_or("").trim_end_matches('>'), state));
+            }
+        }
+    }
+    // exactly one entry per scalar parameter: nothing else in the map
+    p.rep.evaluations += 1;
+    for k in params.keys() {
+        if !e.fields.iter().any(|(n, _)| n == k) {
+            p.fail(format!("{}:parameter-not-declared", route), json!({"key": k}));
+        }
+    }
+}
+
+fn check_json_roundtrip(p: &mut Probe, se: &SerializableError) {
+    p.rep.evaluations += 2;
+    p.rep.cell("json-roundtrip");
+    let text = match guarded(|| json::to_string(se)) {
+        Ok(Ok(t)) => t,
+        Ok(Err(e)) => return p.fail("json:serialize-error".into(), json!(e.to_string())),
+        Err(e) => return p.fail("json:serialize-panic".into(), json!(e)),
+    };
+    type Parse = fn(&str) -> Result<SerializableError, String>;
+    let routes: [(&str, Parse); 2] = [
+        ("client", |s| json::client_from_str(s).map_err(|e| e.to_string())),
+        ("server", |s| json::server_from_str(s).map_err(|e| e.to_string())),
+    ];
+    for (route, parse) in routes {
+        match guarded(|| parse(&text)) {
+            Ok(Ok(back)) => {
+                if back != *se {
+                    p.fail(format!("json:{}:not-identity", route), json!({"document": trunc(&text), "got": trunc(&format!("{:?}", back))}));
+                }
+            }
+            Ok(Err(e)) => p.fail(format!("json:{}:parse-error", route), json!({"document": trunc(&text), "error": e})),
+            Err(e) => p.fail(format!("json:{}:parse-panic", route), json!({"document": trunc(&text), "error": e})),
+        }
+    }
+}
+
+/// The safe / unsafe partition of `err` against the encoded parameters and the declared list.
+fn check_partition(p: &mut Probe, route: &str, err: &Error, se: &SerializableError, safe_args: &[&str]) {
+    let safe: BTreeMap<&str, &Any> = err.safe_params().iter().collect();
+    let unsafe_: BTreeMap<&str, &Any> = err.unsafe_params().iter().collect();
+    p.rep.evaluations += 2;
+    if safe.len() != err.safe_params().len() || unsafe_.len() != err.unsafe_params().len() {
+        p.fail(format!("{}:params-len-disagrees-with-iter", route), json!(null));
+    }
+    for (k, v) in se.parameters() {
+        p.rep.evaluations += 1;
+        let declared = !safe_args.contains(&k.as_str());
+        p.rep.cell(if declared { "partition/declared-safe" } else { "partition/not-declared-safe" });
+        let (s, u) = (safe.get(k.as_str()), unsafe_.get(k.as_str()));
+        let info = || json!({"key": k, "declared_safe": declared, "in_safe": s.is_some(), "in_unsafe": u.is_some()});
+        match (s, u) {
+            (Some(_), Some(_)) => p.fail(format!("{}:param-in-both-sets", route), info()),
+            (None, None) => p.fail(format!("{}:param-in-neither-set", route), info()),
+            (Some(_), None) if !declared => p.fail(format!("{}:undeclared-param-is-safe", route), info()),
+            (None, Some(_)) if declared => p.fail(format!("{}:declared-safe-param-is-unsafe", route), info()),
+            _ => {}
+        }
+        if let Some(a) = s.or(u) {
+            match guarded(|| (*a).clone().deserialize_into::<String>()) {
+                Ok(Ok(t)) if t == *v => {}
+                other => p.fail(
+                    format!("{}:exposed-value-differs", route),
+                    json!({"key": k, "encoded": v, "exposed": trunc(&format!("{:?}", other))}),
+                ),
+            }
+        }
+    }
+    p.rep.evaluations += 1;
+    for k in safe.keys().chain(unsafe_.keys()) {
+        if !se.parameters().contains_key(*k) {
+            p.fail(format!("{}:exposed-param-not-encoded", route), json!({"key": k}));
+        }
+    }
+}
+
+fn error_case(rep: &mut Report, sub: &str, seed: u64) {
+    let mut rng = Rng::new(seed);
+    let r = &mut rng;
+    let e = gen_error(r);
+    // how the instance id is supplied: 0 not at all / by the type only, 1 by `with_instance_id`
+    let wrap = if r.chance(1, 3) { Some(gen_uuid(r)) } else { None };
+    let supplied = wrap.or(e.instance);
+    let idmode = match (wrap, e.instance) {
+        (None, None) => "fresh",
+        (None, Some(_)) => "by-type",
+        (Some(_), None) => "with-instance-id",
+        (Some(_), Some(_)) => "with-instance-id-over-type",
+    };
+    rep.sample(3, || json!({"sub": sub, "case_seed": seed, "error": trunc(&format!("{:?}", e))}));
+    let mut p = Probe { rep, sub, seed, shown: trunc(&format!("{:?} idmode={}", e, idmode)) };
+    let mark = |p: &mut Probe, ctor: &str| {
+        p.rep.cell(&format!("ctor/{}/{}", ctor, idmode));
+        p.rep.distinct.insert(fnv(&format!("{}|{}|{}|n{}", ctor, idmode, spec_name(&e.code), e.fields.len().min(4))));
+        for (name, v) in &e.fields {
+            let (_, class) = stringify(v);
+            let safe = e.safe.contains(name);
+            p.rep.distinct.insert(fnv(&format!("{}|{}|{}|{}", ctor, idmode, class, safe)));
+        }
+    };
+
+    // ---- encode
+    let enc = |e: &DynError| match wrap {
+        Some(id) => guarded(|| encode(&e.with_instance_id(id))),
+        None => guarded(|| encode(e)),
+    };
+    mark(&mut p, "encode");
+    let se = match enc(&e) {
+        Ok(se) => se,
+        Err(panic) => return p.fail("encode:panic".into(), json!(panic)),
+    };
+    check_encoded(&mut p, "encode", &e, supplied, &se);
+    if supplied.is_none() {
+        p.rep.evaluations += 1;
+        match enc(&e) {
+            Ok(se2) if se2.error_instance_id() == se.error_instance_id() => {
+                p.fail("encode:fresh-instance-id-repeats".into(), json!(se.error_instance_id().to_string()))
+            }
+            _ => {}
+        }
+    }
+    check_json_roundtrip(&mut p, &se);
+
+    // ---- Error::service / service_safe
+    for (ctor, safe_cause) in [("service", false), ("service_safe", true)] {
+        mark(&mut p, ctor);
+        let made = guarded(|| match (wrap, safe_cause) {
+            (Some(id), false) => Error::service("cause", (&e).with_instance_id(id)),
+            (Some(id), true) => Error::service_safe("cause", (&e).with_instance_id(id)),
+            (None, false) => Error::service("cause", &e),
+            (None, true) => Error::service_safe("cause", &e),
+        });
+        let err = match made {
+            Ok(err) => err,
+            Err(panic) => {
+                p.fail(format!("{}:panic", ctor), json!(panic));
+                continue;
+            }
+        };
+        match err.kind() {
+            ErrorKind::Service(inner) => {
+                check_encoded(&mut p, ctor, &e, supplied, inner);
+                check_partition(&mut p, ctor, &err, inner, e.safe);
+            }
+            other => p.fail(format!("{}:kind-not-service", ctor), json!(format!("{:?}", other))),
+        }
+    }
+
+    // ---- Error::propagated_service / propagated_service_safe: a description received from a
+    // remote service; possibly with parameters the local type never declared
+    let mut remote = se.clone();
+    if r.chance(1, 3) {
+        let mut b = SerializableError::builder()
+            .error_code(ALL_CODES[r.below(10)].clone())
+            .error_name(format!("{}:{}", r.pick(NAMESPACES), r.pick(NAMES)))
+            .error_instance_id(gen_uuid(r));
+        for _ in 0..r.below(6) {
+            let k = if r.bool() { r.pick(FIELDS).to_string() } else { hostile_string(r, 8) };
+            b = b.insert_parameters(k, hostile_string(r, 8));
+        }
+        remote = b.build();
+        check_json_roundtrip(&mut p, &remote);
+    }
+    for (ctor, safe_cause) in [("propagated_service", false), ("propagated_service_safe", true)] {
+        mark(&mut p, ctor);
+        let made = guarded(|| {
+            if safe_cause {
+                Error::propagated_service_safe("cause", remote.clone())
+            } else {
+                Error::propagated_service("cause", remote.clone())
+            }
+        });
+        let err = match made {
+            Ok(err) => err,
+            Err(panic) => {
+                p.fail(format!("{}:panic", ctor), json!(panic));
+                continue;
+            }
+        };
+        match err.kind() {
+            ErrorKind::Service(inner) => {
+                p.rep.evaluations += 1;
+                if *inner != remote {
+                    p.fail(format!("{}:description-changed", ctor), json!(trunc(&format!("{:?}", inner))));
+                }
+                // propagated: nothing is declared safe
+                check_partition(&mut p, ctor, &err, &remote, &[]);
+                p.rep.evaluations += 1;
+                if !err.safe_params().is_empty() {
+                    p.fail(format!("{}:has-safe-params", ctor), json!(err.safe_params().len()));
+                }
+            }
+            other => p.fail(format!("{}:kind-not-service", ctor), json!(format!("{:?}", other))),
+        }
+    }
+}
+
+fn status_table(rep: &mut Report) {
+    use std::str::FromStr;
+    for (i, code) in ALL_CODES.iter().enumerate() {
+        let name = spec_name(code);
+        let want = CODES.iter().find(|(n, _)| *n == name).map(|(_, s)| *s);
+        rep.evaluations += 1;
+        rep.cell(&format!("status/{}", name));
+        rep.distinct.insert(fnv(&format!("status|{}", name)));
+        let got = guarded(|| code.status_code());
+        if got.as_ref().ok().copied() != want {
+            rep.violation(
+                "status",
+                i as u64,
+                format!("status-code:{}", name),
+                json!({"code": name, "got": format!("{:?}", got), "expected": want}),
+            );
+        }
+    }
+    // the same through the names of the specification (variant <-> name binding)
+    for (i, (name, status)) in CODES.iter().enumerate() {
+        rep.evaluations += 2;
+        let by_name = guarded(|| ErrorCode::from_str(name).ok().map(|c| c.status_code()));
+        let by_json = guarded(|| json::client_from_str::<ErrorCode>(&format!("\"{}\"", name)).ok().map(|c| c.status_code()));
+        for (route, got) in [("from_str", by_name), ("json", by_json)] {
+            if got != Ok(Some(*status)) {
+                rep.violation(
+                    "status",
+                    i as u64,
+                    format!("status-code:{}:{}", name, route),
+                    json!({"code": name, "got": format!("{:?}", got), "expected": status}),
+                );
+            }
+        }
+    }
+}
+
+fn builtin(rep: &mut Report) {
+    fn one<T: ErrorType + Serialize>(rep: &mut Report, i: u64, e: T, code: ErrorCode, name: &str) {
+        rep.evaluations += 1;
+        rep.cell(&format!("builtin/{}", name));
+        rep.distinct.insert(fnv(&format!("builtin|{}", name)));
+        let mut bad = |what: &str, info: String| {
+            rep.violation("builtin", i, format!("builtin:{}:{}", name, what), json!({"type": name, "info": info}));
+        };
+        if !e.safe_args().windows(2).all(|w| w[0] < w[1]) {
+            bad("safe-args-unsorted", format!("{:?}", e.safe_args()));
+        }
+        match (guarded(|| encode(&e)), guarded(|| encode(&e))) {
+            (Ok(a), Ok(b)) => {
+                if a.error_code() != &code {
+                    bad("code", a.error_code().as_str().to_string());
+                }
+                if a.error_name() != format!("Default:{}", name) {
+                    bad("name", a.error_name().to_string());
+                }
+                if !a.parameters().is_empty() {
+                    bad("parameters", format!("{:?}", a.parameters()));
+                }
+                if !v4_well_formed(&a.error_instance_id()) || a.error_instance_id() == b.error_instance_id() {
+                    bad("instance-id", a.error_instance_id().to_string());
+                }
+            }
+            (a, _) => bad("panic", format!("{:?}", a.err())),
+        }
+    }
+    use conjure_error::*;
+    one(rep, 0, PermissionDenied::new(), ErrorCode::PermissionDenied, "PermissionDenied");
+    one(rep, 1, InvalidArgument::new(), ErrorCode::InvalidArgument, "InvalidArgument");
+    one(rep, 2, NotFound::new(), ErrorCode::NotFound, "NotFound");
+    one(rep, 3, Conflict::new(), ErrorCode::Conflict, "Conflict");
+    one(rep, 4, RequestEntityTooLarge::new(), ErrorCode::RequestEntityTooLarge, "RequestEntityTooLarge");
+    one(rep, 5, FailedPrecondition::new(), ErrorCode::FailedPrecondition, "FailedPrecondition");
+    one(rep, 6, Internal::new(), ErrorCode::Internal, "Internal");
+    one(rep, 7, Timeout::new(), ErrorCode::Timeout, "Timeout");
+}
+
+pub fn run(ctx: &Ctx, report: &mut Report) {
+    ctx.fixed(report, "status", status_table);
+    ctx.fixed(report, "builtin", builtin);
+    ctx.cases(report, "errors", ctx.n(50_000, 3_000_000), |seed, rep| {
+        error_case(rep, "errors", seed);
+    });
+    if ctx.replay.is_none() {
+        report.floor_cells("status-codes", "status/", 10);
+        report.floor_cells("builtin-errors", "builtin/", 8);
+        // 5 constructors x 4 ways of (not) supplying the instance id
+        report.floor_cells("constructor-x-idmode", "ctor/", 20);
+        // string uuid rid enum boolean integer integer64 safelong double double-nonfinite datetime
+        // bearertoken any list set map object object-empty binary optional-absent optional alias
+        report.floor_cells("parameter-classes", "param/", 22);
+        report.floor_cells("partition-sides", "partition/", 2);
+        let d = report.distinct.len() as u64;
+        report.floor("distinct-classes", if ctx.scale >= 1.0 { 1500 } else { 500 }, d);
+    }
+    report.notes.push(
+        "distinct = (constructor, instance-id mode, parameter class incl. optional/alias nesting, declared safe?) + (constructor, id mode, code, field count)".into(),
+    );
 }
